@@ -81,3 +81,491 @@ package document
 //@   invariant forall k int :: 0 <= k && k < len(runInfos) ==> runInfos[k].run != nil
 //@   invariant len(runInfos) == 0 ==> fullText == ""
 //@   decreases len(para.Runs) - #i
+
+//@ func (*TemplateEngine).createTextParagraph
+//@ props C17
+//@ ignore-ensures deepcopy
+//@ requires te != nil && originalPara != nil
+//@ modifies nothing
+//@ ensures fresh(result) && !isElem(result)
+
+// ---- tables ---------------------------------------------------------------------------------------------
+// tableRoot(t, b): the table object (or the array cell holding it) and its row array lie at or above b.
+// With closedAbove(b) everything the renderer reaches from t - rows, cells, their paragraphs, nested tables
+// at any depth - lies at or above b.
+// (a *Table that points into an array points into an array of tables: Go's typing, stated because allocation
+// tags are ghost state)
+//@ spec tableRoot(t *Table, b int) bool = t != nil && above(t, b) && above(t.Rows, b) && tagged(t.Rows, "TableRow") && (isElem(t) ==> elemOf(t, "Table"))
+
+//@ func (*TemplateEngine).containsTemplateLoop
+//@ props C17
+//@ modifies nothing
+
+//@ func (*TemplateEngine).containsTemplateLoopInRuns
+//@ props C17
+//@ requires te != nil
+//@ modifies nothing
+//@ loop 1
+//@   invariant 0 <= #i && #i <= len(runs) && unchangedHeap()
+//@   decreases len(runs) - #i
+
+//@ func (*TemplateEngine).isTableTemplate
+//@ props C17
+//@ requires te != nil && table != nil
+//@ modifies nothing
+//@ loop 1
+//@   invariant 0 <= #i && #i <= len(table.Rows) && unchangedHeap()
+//@   decreases len(table.Rows) - #i
+//@ loop 2
+//@   invariant 0 <= #i && #i <= len(row.Cells) && unchangedHeap()
+//@   decreases len(row.Cells) - #i
+//@ loop 3
+//@   invariant 0 <= #i && #i <= len(cell.Paragraphs) && unchangedHeap()
+//@   decreases len(cell.Paragraphs) - #i
+
+// replaceVariablesInTable / renderTableTemplate (mutually recursive through nested tables; termination not
+// claimed). Given a table at or above B in a region closed above B, nothing below B is written: every row,
+// cell, paragraph and nested table they write to is reached from the table and therefore lies in the region;
+// everything else they write is fresh (cloned rows, new run arrays, the per-item data of nested tables).
+// The region stays closed and the table stays rooted in it. Top-level tables and paragraphs other than the
+// argument (separately allocated objects, not array cells) keep their rows / runs.
+// assume-no-panic: after the recursive call on a nested table the engine no longer knows the lengths of the
+// outer table's own row/cell arrays (that the nested table is not an ancestor of itself is a tree-shape fact
+// we do not state), so the index checks of these two functions are assumed, not proved.
+//@ func (*TemplateEngine).replaceVariablesInTable
+//@ props C17
+//@ ghost B int
+//@ assume-no-panic
+//@ partial
+//@ requires te != nil && data != nil && tableRoot(table, B) && closedAbove(B)
+//@ modifies Table.Rows, TableRow.*, Paragraph.Runs
+//@ ensures unchangedBelow(B) && closedAbove(B) && tableRoot(table, B)
+//@ ensures forall t *Table :: !isElem(t) && t != table ==> t.Rows == old(t.Rows)
+//@ ensures forall r *TableRow :: !isElem(r) && allocated(r) ==> r.Cells == old(r.Cells)
+//@ ensures forall p *Paragraph :: !isElem(p) && allocated(p) ==> p.Runs == old(p.Runs)
+//@ loop 1
+//@   invariant unchangedBelow(B) && closedAbove(B) && tableRoot(table, B)
+//@   invariant forall t *Table :: !isElem(t) && t != table ==> t.Rows == old(t.Rows)
+//@   invariant forall r *TableRow :: !isElem(r) && allocated(r) ==> r.Cells == old(r.Cells)
+//@   invariant forall p *Paragraph :: !isElem(p) && allocated(p) ==> p.Runs == old(p.Runs)
+//@ loop 2
+//@   invariant unchangedBelow(B) && closedAbove(B) && tableRoot(table, B)
+//@   invariant forall t *Table :: !isElem(t) && t != table ==> t.Rows == old(t.Rows)
+//@   invariant forall r *TableRow :: !isElem(r) && allocated(r) ==> r.Cells == old(r.Cells)
+//@   invariant forall p *Paragraph :: !isElem(p) && allocated(p) ==> p.Runs == old(p.Runs)
+//@ loop 3
+//@   invariant unchangedBelow(B) && closedAbove(B) && tableRoot(table, B)
+//@   invariant forall t *Table :: !isElem(t) && t != table ==> t.Rows == old(t.Rows)
+//@   invariant forall r *TableRow :: !isElem(r) && allocated(r) ==> r.Cells == old(r.Cells)
+//@   invariant forall p *Paragraph :: !isElem(p) && allocated(p) ==> p.Runs == old(p.Runs)
+//@ loop 4
+//@   invariant unchangedBelow(B) && closedAbove(B) && tableRoot(table, B)
+//@   invariant forall t *Table :: !isElem(t) && t != table ==> t.Rows == old(t.Rows)
+//@   invariant forall r *TableRow :: !isElem(r) && allocated(r) ==> r.Cells == old(r.Cells)
+//@   invariant forall p *Paragraph :: !isElem(p) && allocated(p) ==> p.Runs == old(p.Runs)
+
+//@ func (*TemplateEngine).renderTableTemplate
+//@ props C17
+//@ ghost B int
+//@ assume-no-panic
+//@ partial
+//@ ignore-ensures deepcopy
+//@ requires te != nil && data != nil && tableRoot(table, B) && closedAbove(B)
+//@ modifies Table.Rows, TableRow.*, Paragraph.Runs
+//@ ensures unchangedBelow(B) && closedAbove(B) && tableRoot(table, B)
+//@ ensures forall t *Table :: !isElem(t) && t != table ==> t.Rows == old(t.Rows)
+//@ ensures forall r *TableRow :: !isElem(r) && allocated(r) ==> r.Cells == old(r.Cells)
+//@ ensures forall p *Paragraph :: !isElem(p) && allocated(p) ==> p.Runs == old(p.Runs)
+//@ loop 1
+//@   invariant unchangedHeap() && closedAbove(B)
+//@ loop 2
+//@   invariant unchangedHeap() && closedAbove(B)
+//@ loop 3
+//@   invariant unchangedHeap() && closedAbove(B)
+//@ loop 4
+//@   invariant unchangedHeap() && closedAbove(B)
+//@ loop 5
+//@   invariant unchangedExcept("Table.Rows", "TableRow.*", "Paragraph.Runs") && unchangedBelow(B)
+//@   invariant closedRows(B)
+//@   invariant closedCells(B)
+//@   invariant closedTables(B)
+//@   invariant table != nil && above(table, B) && above(newRows, B) && tagged(newRows, "TableRow")
+//@   invariant (forall t *Table :: !isElem(t) && t != table ==> t.Rows == old(t.Rows)) && (forall r *TableRow :: !isElem(r) && allocated(r) ==> r.Cells == old(r.Cells)) && (forall p *Paragraph :: !isElem(p) && allocated(p) ==> p.Runs == old(p.Runs))
+//@ loop 6
+//@   invariant unchangedExcept("Table.Rows", "TableRow.*", "Paragraph.Runs") && unchangedBelow(B)
+//@   invariant closedRows(B)
+//@   invariant closedCells(B)
+//@   invariant closedTables(B)
+//@   invariant table != nil && above(table, B) && above(newRows, B) && tagged(newRows, "TableRow")
+//@   invariant (forall t *Table :: !isElem(t) && t != table ==> t.Rows == old(t.Rows)) && (forall r *TableRow :: !isElem(r) && allocated(r) ==> r.Cells == old(r.Cells)) && (forall p *Paragraph :: !isElem(p) && allocated(p) ==> p.Runs == old(p.Runs))
+//@ loop 14
+//@   invariant unchangedExcept("Table.Rows", "TableRow.*", "Paragraph.Runs") && unchangedBelow(B)
+//@   invariant closedRows(B)
+//@   invariant closedCells(B)
+//@   invariant closedTables(B)
+//@   invariant table != nil && above(table, B) && above(newRows, B) && tagged(newRows, "TableRow")
+//@   invariant (forall t *Table :: !isElem(t) && t != table ==> t.Rows == old(t.Rows)) && (forall r *TableRow :: !isElem(r) && allocated(r) ==> r.Cells == old(r.Cells)) && (forall p *Paragraph :: !isElem(p) && allocated(p) ==> p.Runs == old(p.Runs))
+//@ loop 7
+//@   invariant unchangedExcept("Table.Rows", "TableRow.*", "Paragraph.Runs") && unchangedBelow(B)
+//@   invariant closedRows(B)
+//@   invariant closedCells(B)
+//@   invariant closedTables(B)
+//@   invariant table != nil && above(table, B) && above(newRows, B) && tagged(newRows, "TableRow") && newRow != nil && above(newRow, B) && above(newRow.Cells, B) && tagged(newRow.Cells, "TableCell")
+//@   invariant (forall t *Table :: !isElem(t) && t != table ==> t.Rows == old(t.Rows)) && (forall r *TableRow :: !isElem(r) && allocated(r) ==> r.Cells == old(r.Cells)) && (forall p *Paragraph :: !isElem(p) && allocated(p) ==> p.Runs == old(p.Runs))
+//@ loop 8
+//@   invariant unchangedExcept("Table.Rows", "TableRow.*", "Paragraph.Runs") && unchangedBelow(B)
+//@   invariant closedRows(B)
+//@   invariant closedCells(B)
+//@   invariant closedTables(B)
+//@   invariant table != nil && above(table, B) && above(newRows, B) && tagged(newRows, "TableRow") && newRow != nil && above(newRow, B) && above(newRow.Cells, B) && tagged(newRow.Cells, "TableCell")
+//@   invariant (forall t *Table :: !isElem(t) && t != table ==> t.Rows == old(t.Rows)) && (forall r *TableRow :: !isElem(r) && allocated(r) ==> r.Cells == old(r.Cells)) && (forall p *Paragraph :: !isElem(p) && allocated(p) ==> p.Runs == old(p.Runs))
+//@ loop 9
+//@   invariant unchangedExcept("Table.Rows", "TableRow.*", "Paragraph.Runs") && unchangedBelow(B)
+//@   invariant closedRows(B)
+//@   invariant closedCells(B)
+//@   invariant closedTables(B)
+//@   invariant table != nil && above(table, B) && above(newRows, B) && tagged(newRows, "TableRow") && newRow != nil && above(newRow, B) && above(newRow.Cells, B) && tagged(newRow.Cells, "TableCell")
+//@   invariant (forall t *Table :: !isElem(t) && t != table ==> t.Rows == old(t.Rows)) && (forall r *TableRow :: !isElem(r) && allocated(r) ==> r.Cells == old(r.Cells)) && (forall p *Paragraph :: !isElem(p) && allocated(p) ==> p.Runs == old(p.Runs))
+//@ loop 10
+//@   invariant unchangedExcept("Table.Rows", "TableRow.*", "Paragraph.Runs") && unchangedBelow(B)
+//@   invariant closedRows(B)
+//@   invariant closedCells(B)
+//@   invariant closedTables(B)
+//@   invariant table != nil && above(table, B) && above(newRows, B) && tagged(newRows, "TableRow") && newRow != nil && above(newRow, B) && above(newRow.Cells, B) && tagged(newRow.Cells, "TableCell")
+//@   invariant (forall t *Table :: !isElem(t) && t != table ==> t.Rows == old(t.Rows)) && (forall r *TableRow :: !isElem(r) && allocated(r) ==> r.Cells == old(r.Cells)) && (forall p *Paragraph :: !isElem(p) && allocated(p) ==> p.Runs == old(p.Runs))
+//@ loop 11
+//@   invariant unchangedExcept("Table.Rows", "TableRow.*", "Paragraph.Runs") && unchangedBelow(B)
+//@   invariant closedRows(B)
+//@   invariant closedCells(B)
+//@   invariant closedTables(B)
+//@   invariant table != nil && above(table, B) && above(newRows, B) && tagged(newRows, "TableRow") && newRow != nil && above(newRow, B) && above(newRow.Cells, B) && tagged(newRow.Cells, "TableCell")
+//@   invariant (forall t *Table :: !isElem(t) && t != table ==> t.Rows == old(t.Rows)) && (forall r *TableRow :: !isElem(r) && allocated(r) ==> r.Cells == old(r.Cells)) && (forall p *Paragraph :: !isElem(p) && allocated(p) ==> p.Runs == old(p.Runs))
+//@ loop 12
+//@   invariant unchangedExcept("Table.Rows", "TableRow.*", "Paragraph.Runs") && unchangedBelow(B)
+//@   invariant closedRows(B)
+//@   invariant closedCells(B)
+//@   invariant closedTables(B)
+//@   invariant table != nil && above(table, B) && above(newRows, B) && tagged(newRows, "TableRow") && newRow != nil && above(newRow, B) && above(newRow.Cells, B) && tagged(newRow.Cells, "TableCell")
+//@   invariant (forall t *Table :: !isElem(t) && t != table ==> t.Rows == old(t.Rows)) && (forall r *TableRow :: !isElem(r) && allocated(r) ==> r.Cells == old(r.Cells)) && (forall p *Paragraph :: !isElem(p) && allocated(p) ==> p.Runs == old(p.Runs))
+//@ loop 13
+//@   invariant unchangedExcept("Table.Rows", "TableRow.*", "Paragraph.Runs") && unchangedBelow(B)
+//@   invariant closedRows(B)
+//@   invariant closedCells(B)
+//@   invariant closedTables(B)
+//@   invariant table != nil && above(table, B) && above(newRows, B) && tagged(newRows, "TableRow") && newRow != nil && above(newRow, B) && above(newRow.Cells, B) && tagged(newRow.Cells, "TableCell")
+//@   invariant (forall t *Table :: !isElem(t) && t != table ==> t.Rows == old(t.Rows)) && (forall r *TableRow :: !isElem(r) && allocated(r) ==> r.Cells == old(r.Cells)) && (forall p *Paragraph :: !isElem(p) && allocated(p) ==> p.Runs == old(p.Runs))
+
+// ---- document level -------------------------------------------------------------------------------------
+// elemOwned / docOwned: the document object, its body, the element list and the part map lie at or above b; so
+// does every top-level paragraph and table object (separately allocated objects, not array cells), and every
+// table is rooted in the region.
+//@ spec elemOwned(x any, b int) bool = ref(x) != nil && (isPara(x) ==> above(x, b) && !isElem(x.(*Paragraph))) && (isTable(x) ==> tableRoot(x.(*Table), b) && !isElem(x.(*Table)))
+//@ spec elemsOwned(es []any, b int) bool = forall j int :: {es[j]} 0 <= j && j < len(es) ==> elemOwned(es[j], b)
+//@ spec docOwned(d *Document, b int) bool = d != nil && above(d, b) && d.Body != nil && above(d.Body, b) && above(d.Body.Elements, b) && elemsOwned(d.Body.Elements, b) && above(d.parts, b)
+
+//@ func (*TemplateEngine).escapeXMLContent
+//@ props C17
+//@ modifies nothing
+
+//@ func (*TemplateEngine).replaceVariablesInXMLPart
+//@ props C17
+//@ requires te != nil && data != nil
+//@ modifies nothing
+//@ ensures err == nil
+
+// Header/footer parts: the part map of the document is updated in place (same keys), the new byte arrays are
+// fresh; the byte arrays that were in the map are not written.
+//@ func (*TemplateEngine).replaceVariablesInHeadersFooters
+//@ props C17
+//@ ghost B int
+//@ requires te != nil && doc != nil && data != nil && above(doc.parts, B)
+//@ modifies map:string:[]byte
+//@ ensures unchangedBelow(B)
+//@ ensures forall k string :: has(doc.parts, k) == old(has(doc.parts, k))
+//@ loop 1
+//@   invariant unchangedBelow(B) && doc.parts != nil
+//@   invariant forall k string :: has(doc.parts, k) == old(has(doc.parts, k))
+
+// applyRenderedContentToDocument appends fresh paragraphs to the body of the document it is given.
+//@ func (*TemplateEngine).applyRenderedContentToDocument
+//@ props C17
+//@ ghost B int
+//@ requires te != nil && docOwned(doc, B)
+//@ modifies Body.Elements, cell:any
+//@ ensures err == nil
+//@ ensures unchangedBelow(B) && docOwned(doc, B)
+//@ loop 1
+//@   invariant 0 <= #i && #i <= len(lines) && unchangedBelow(B)
+//@   invariant unchangedExcept("Body.Elements", "cell:any")
+//@   invariant docOwned(doc, B)
+//@   decreases len(lines) - #i
+
+// processDocumentLevelLoops rebuilds the element list of the document it is given: the new list is a fresh
+// array holding the old elements and fresh clones; of the existing memory only doc.Body.Elements is assigned.
+//@ func (*TemplateEngine).processDocumentLevelLoops
+//@ props C17
+//@ ghost B int
+//@ ignore-ensures deepcopy
+//@ requires te != nil && data != nil && docOwned(doc, B) && closedAbove(B)
+//@ modifies Body.Elements
+//@ ensures err == nil
+//@ ensures unchangedBelow(B)
+//@ ensures closedAbove(B)
+//@ ensures docOwned(doc, B)
+//@ ensures forall p *Paragraph :: allocated(p) ==> p.Runs == old(p.Runs)
+//@ loop 1
+//@   invariant unchangedHeap()
+//@   invariant closedRows(B)
+//@   invariant closedCells(B)
+//@   invariant closedTables(B)
+//@   invariant freshArr(newElements)
+//@   invariant elemsOwned(newElements, B)
+//@   invariant 0 <= i && i <= len(elements)
+//@ loop 2
+//@   invariant unchangedHeap()
+//@   invariant closedRows(B)
+//@   invariant closedCells(B)
+//@   invariant closedTables(B)
+//@   invariant freshArr(newElements)
+//@   invariant elemsOwned(newElements, B)
+//@   invariant 0 <= i && i <= len(elements)
+//@   invariant i < len(elements)
+//@ loop 3
+//@   invariant unchangedHeap()
+//@   invariant closedRows(B)
+//@   invariant closedCells(B)
+//@   invariant closedTables(B)
+//@   invariant freshArr(newElements)
+//@   invariant elemsOwned(newElements, B)
+//@   invariant 0 <= i && i <= len(elements)
+//@   invariant i < len(elements) && i <= j && j <= len(elements) && loopEndIndex == -1
+//@   invariant freshArr(templateElements)
+//@   invariant forall k int :: {templateElements[k]} 0 <= k && k < len(templateElements) ==> elemOwned(templateElements[k], B)
+//@ loop 4
+//@   invariant unchangedHeap()
+//@   invariant closedRows(B)
+//@   invariant closedCells(B)
+//@   invariant closedTables(B)
+//@   invariant freshArr(newElements)
+//@   invariant elemsOwned(newElements, B)
+//@   invariant 0 <= i && i <= len(elements)
+//@   invariant i < len(elements) && i <= j && j < len(elements) && loopEndIndex == -1
+//@   invariant freshArr(templateElements)
+//@   invariant forall k int :: {templateElements[k]} 0 <= k && k < len(templateElements) ==> elemOwned(templateElements[k], B)
+//@ loop 5
+//@   invariant unchangedHeap()
+//@   invariant closedRows(B)
+//@   invariant closedCells(B)
+//@   invariant closedTables(B)
+//@   invariant freshArr(newElements)
+//@   invariant elemsOwned(newElements, B)
+//@   invariant 0 <= i && i <= len(elements)
+//@   invariant 0 <= loopEndIndex && loopEndIndex < len(elements) && i <= loopEndIndex
+//@   invariant freshArr(templateElements)
+//@   invariant forall k int :: {templateElements[k]} 0 <= k && k < len(templateElements) ==> elemOwned(templateElements[k], B)
+//@ loop 6
+//@   invariant unchangedHeap()
+//@   invariant closedRows(B)
+//@   invariant closedCells(B)
+//@   invariant closedTables(B)
+//@   invariant freshArr(newElements)
+//@   invariant elemsOwned(newElements, B)
+//@   invariant 0 <= i && i <= len(elements)
+//@   invariant 0 <= loopEndIndex && loopEndIndex < len(elements) && i <= loopEndIndex
+//@   invariant freshArr(templateElements)
+//@   invariant forall k int :: {templateElements[k]} 0 <= k && k < len(templateElements) ==> elemOwned(templateElements[k], B)
+//@ loop 7
+//@   invariant unchangedHeap()
+//@   invariant closedRows(B)
+//@   invariant closedCells(B)
+//@   invariant closedTables(B)
+//@   invariant freshArr(newElements)
+//@   invariant elemsOwned(newElements, B)
+//@   invariant 0 <= i && i <= len(elements)
+//@   invariant 0 <= loopEndIndex && loopEndIndex < len(elements) && i <= loopEndIndex
+//@   invariant freshArr(templateElements)
+//@   invariant forall k int :: {templateElements[k]} 0 <= k && k < len(templateElements) ==> elemOwned(templateElements[k], B)
+//@ loop 8
+//@   invariant unchangedHeap()
+//@   invariant closedRows(B)
+//@   invariant closedCells(B)
+//@   invariant closedTables(B)
+//@   invariant freshArr(newElements)
+//@   invariant elemsOwned(newElements, B)
+//@   invariant 0 <= i && i <= len(elements)
+//@   invariant 0 <= loopEndIndex && loopEndIndex < len(elements) && i <= loopEndIndex
+//@   invariant freshArr(templateElements)
+//@   invariant forall k int :: {templateElements[k]} 0 <= k && k < len(templateElements) ==> elemOwned(templateElements[k], B)
+
+// ---- picture placeholders -------------------------------------------------------------------------------
+// imagesOK: the picture table of the data holds no nil entry (what SetImage/SetImageFromData/SetImageWithDetails store).
+//@ spec imagesOK(data *TemplateData) bool = data != nil && forall k string :: has(data.Images, k) ==> data.Images[k] != nil
+// imgDoc: what the picture allocator needs from the document (containers exist, media names free: property C10)
+// plus its containers in the region (imgOwned, zz_contracts_verif_image.go).
+//@ spec imgDoc(d *Document, b int) bool = docParts(d) && mediaFresh(d) && imgOwned(d, b)
+
+// processImagePlaceholdersInParagraph returns the paragraph itself or fresh paragraphs; pictures are added to
+// the document given (its part map, relationship list, content types, counter), nothing below B is written.
+// assume-no-panic: the positions of the placeholders come from strings.Index on text a regular expression
+// matched; that they are in range is a fact about regexp (property C16), not shown here.
+//@ func (*TemplateEngine).processImagePlaceholdersInParagraph
+//@ props C17
+//@ ghost B int
+//@ assume-no-panic
+//@ ignore-ensures deepcopy, drawingIs
+//@ requires te != nil && para != nil && imagesOK(data) && imgDoc(doc, B)
+//@ modifies Document.nextImageID, map:string:[]byte, Relationships.Relationships, []Relationship, Document.contentTypes, ContentTypes.Defaults, []Default, ImageInfo.Config, ImageConfig.AltText, ImageConfig.Title
+//@ ensures unchangedBelow(B)
+//@ ensures imgDoc(doc, B)
+//@ ensures err == nil ==> freshArr(result0) && (forall k int :: 0 <= k && k < len(result0) ==> isPara(result0[k]) && ref(result0[k]) != nil && (result0[k].(*Paragraph) == para || (fresh(result0[k]) && !isElem(result0[k].(*Paragraph)))))
+//@ loop 1
+//@   invariant 0 <= #i && #i <= len(para.Runs) && unchangedHeap()
+//@   decreases len(para.Runs) - #i
+//@ loop 2
+//@   invariant 0 <= #i && #i <= len(originalMatches) && unchangedHeap() && freshArr(allMatches)
+//@   decreases len(originalMatches) - #i
+//@ loop 3
+//@   invariant 0 <= #i && #i <= len(renderedMatches) && unchangedHeap() && freshArr(allMatches)
+//@   decreases len(renderedMatches) - #i
+//@ loop 4
+//@   invariant 0 <= #i && #i <= len(allMatches)
+//@   invariant unchangedBelow(B)
+//@   invariant imgDoc(doc, B)
+//@   invariant unchangedExcept("Document.nextImageID", "map:string:[]byte", "Relationships.Relationships", "[]Relationship", "Document.contentTypes", "ContentTypes.Defaults", "[]Default", "ImageInfo.Config", "ImageConfig.AltText", "ImageConfig.Title")
+//@   invariant freshArr(result) && (forall k int :: 0 <= k && k < len(result) ==> isPara(result[k]) && ref(result[k]) != nil && fresh(result[k]) && !isElem(result[k].(*Paragraph)))
+//@   decreases len(allMatches) - #i
+
+// processImagePlaceholdersInTable replaces paragraphs of the cells of the table it is given (cells reached
+// from the table: in the region) by the paragraph itself or fresh ones. Nested tables are not visited.
+// assume-no-panic: the paragraph list of a cell is replaced while it is being ranged over.
+//@ func (*TemplateEngine).processImagePlaceholdersInTable
+//@ props C17
+//@ ghost B int
+//@ assume-no-panic
+//@ requires te != nil && tableRoot(table, B) && closedAbove(B) && imagesOK(data) && imgDoc(doc, B)
+//@ modifies TableCell.Paragraphs, Paragraph.*, Document.nextImageID, map:string:[]byte, Relationships.Relationships, []Relationship, Document.contentTypes, ContentTypes.Defaults, []Default, ImageInfo.Config, ImageConfig.AltText, ImageConfig.Title
+//@ ensures unchangedBelow(B)
+//@ ensures closedAbove(B)
+//@ ensures tableRoot(table, B) && imgDoc(doc, B)
+//@ ensures forall p *Paragraph :: !isElem(p) && allocated(p) ==> unchangedStruct(p)
+//@ loop 1
+//@   invariant unchangedBelow(B)
+//@   invariant closedRows(B)
+//@   invariant closedCells(B)
+//@   invariant closedTables(B)
+//@   invariant tableRoot(table, B) && imgDoc(doc, B)
+//@   invariant forall p *Paragraph :: !isElem(p) && allocated(p) ==> unchangedStruct(p)
+//@ loop 2
+//@   invariant unchangedBelow(B)
+//@   invariant closedRows(B)
+//@   invariant closedCells(B)
+//@   invariant closedTables(B)
+//@   invariant tableRoot(table, B) && imgDoc(doc, B)
+//@   invariant forall p *Paragraph :: !isElem(p) && allocated(p) ==> unchangedStruct(p)
+//@ loop 3
+//@   invariant unchangedBelow(B)
+//@   invariant closedRows(B)
+//@   invariant closedCells(B)
+//@   invariant closedTables(B)
+//@   invariant tableRoot(table, B) && imgDoc(doc, B)
+//@   invariant forall p *Paragraph :: !isElem(p) && allocated(p) ==> unchangedStruct(p)
+//@   invariant cell != nil && elemOf(cell, "TableCell") && above(cell, B) && live(cell)
+//@ loop 4
+//@   invariant unchangedBelow(B)
+//@   invariant closedRows(B)
+//@   invariant closedCells(B)
+//@   invariant closedTables(B)
+//@   invariant tableRoot(table, B) && imgDoc(doc, B)
+//@   invariant forall p *Paragraph :: !isElem(p) && allocated(p) ==> unchangedStruct(p)
+//@   invariant cell != nil && elemOf(cell, "TableCell") && above(cell, B) && live(cell)
+//@   invariant freshArr(newParagraphs)
+
+// OTHERS: top-level paragraph and table objects are separately allocated; a call on one element leaves the
+// others' runs / rows alone (what keeps docOwned of the remaining elements across the loop).
+
+// processImagePlaceholders splices fresh paragraphs into the element list of the document it is given.
+// assume-no-panic: the element list is re-sliced with indices of the list it is ranging over.
+//@ func (*TemplateEngine).processImagePlaceholders
+//@ props C17
+//@ ghost B int
+//@ assume-no-panic
+//@ requires te != nil && docOwned(doc, B) && closedAbove(B) && imagesOK(data) && imgDoc(doc, B)
+//@ modifies Body.Elements, cell:any, TableCell.Paragraphs, Paragraph.*, Document.nextImageID, map:string:[]byte, Relationships.Relationships, []Relationship, Document.contentTypes, ContentTypes.Defaults, []Default, ImageInfo.Config, ImageConfig.AltText, ImageConfig.Title
+//@ ensures unchangedBelow(B)
+//@ loop 1
+//@   invariant unchangedBelow(B)
+//@   invariant closedRows(B)
+//@   invariant closedCells(B)
+//@   invariant closedTables(B)
+//@   invariant doc != nil && above(doc, B) && doc.Body != nil && above(doc.Body, B) && above(doc.Body.Elements, B) && above(doc.parts, B)
+//@   invariant elemsOwned(doc.Body.Elements, B)
+//@   invariant forall j int :: {old(doc.Body.Elements)[j]} 0 <= j && j < old(len(doc.Body.Elements)) ==> elemOwned(old(doc.Body.Elements)[j], B)
+//@   invariant imgDoc(doc, B)
+
+// replaceVariablesInDocument: the whole substitution pass on the (cloned) document.
+//@ func (*TemplateEngine).replaceVariablesInDocument
+//@ props C17
+//@ ghost B int
+//@ requires te != nil && docOwned(doc, B) && closedAbove(B) && imagesOK(data) && imgDoc(doc, B)
+//@ modifies Body.Elements, cell:any, Table.Rows, TableRow.*, TableCell.Paragraphs, Paragraph.*, Document.nextImageID, map:string:[]byte, Relationships.Relationships, []Relationship, Document.contentTypes, ContentTypes.Defaults, []Default, ImageInfo.Config, ImageConfig.AltText, ImageConfig.Title
+//@ ensures unchangedBelow(B)
+//@ loop 1
+//@   invariant unchangedBelow(B)
+//@   invariant closedRows(B)
+//@   invariant closedCells(B)
+//@   invariant closedTables(B)
+//@   invariant docOwned(doc, B)
+//@   invariant imgDoc(doc, B)
+
+// ---- the two rendering entry points -----------------------------------------------------------------------
+// baseDocOK: what every document built by New/Open/the Add* API satisfies and cloneDocument relies on.
+//@ spec baseDocOK(d *Document) bool = d.Body != nil && elemsOK(d.Body.Elements) && sectRefsOK(d.Body.Elements) && mediaFresh(d) && d.nextImageID >= 0
+// cacheOK: the cache holds no nil template (LoadTemplate/LoadTemplateFromDocument store the template they built).
+//@ spec cacheOK(te *TemplateEngine) bool = forall k string :: has(te.cache, k) ==> te.cache[k] != nil && (te.cache[k].BaseDoc != nil ==> baseDocOK(te.cache[k].BaseDoc))
+
+// RenderTemplateToDocument / RenderToDocument: NOTHING that existed before the call is written - not the engine
+// and its cache, not the template, its blocks, its parents, not the base document (body, paragraphs, tables,
+// cells, runs, parts, relationships, content types, styles, numbering, footnotes), not the data (variable, list,
+// condition and picture tables, the picture configurations). The result is a new document.
+// B is bound to the allocation counter at entry: "below B" is "existed before the call".
+//@ func (*TemplateEngine).RenderToDocument
+//@ props C17
+//@ ghost B int = allocBound()
+//@ requires te != nil && tplErrVars() && cacheOK(te) && imagesOK(data)
+//@ modifies nothing
+//@ ensures err == nil ==> fresh(result0)
+//@ ensures err != nil ==> result0 == nil
+
+//@ func (*TemplateEngine).RenderTemplateToDocument
+//@ props C17
+//@ ghost B int = allocBound()
+//@ requires te != nil && tplErrVars() && cacheOK(te) && imagesOK(data)
+//@ modifies nothing
+//@ ensures err == nil ==> fresh(result0)
+//@ ensures err != nil ==> result0 == nil
+
+
+// ---- TemplateRenderer (template_engine.go): logging wrappers around the engine ------------------------------
+//@ func (*TemplateRenderer).getMapKeys
+//@ props C17
+//@ modifies nothing
+//@ loop 1
+//@   invariant unchangedHeap() && freshArr(keys)
+
+//@ func (*TemplateRenderer).validateTemplateData
+//@ props C17
+//@ requires tr != nil && tr.logger != nil
+//@ modifies nothing
+//@ ensures result == nil <==> data != nil
+//@ loop 1
+//@   invariant unchangedHeap()
+//@ loop 2
+//@   invariant 0 <= #i && #i <= len(listData) && unchangedHeap()
+//@   decreases len(listData) - #i
+
+// RenderTemplate: validation and logging read only; the rendering itself is RenderTemplateToDocument.
+//@ func (*TemplateRenderer).RenderTemplate
+//@ props C17
+//@ requires tr != nil && tr.logger != nil && tr.engine != nil && tplErrVars() && cacheOK(tr.engine) && (data != nil ==> imagesOK(data))
+//@ modifies nothing
+//@ ensures err == nil ==> fresh(result0)
